@@ -519,6 +519,7 @@ func c02Store(p *Prog, r *Report) {
 	c02FiltersExtracted(p, r, "R15")
 	r.Rule("R16", "a partial update keeps what it does not mention: the helper that fills the replacement item from the existing one sets every valid, settable field that is nil in the update, on every path of its per-field iteration and whatever the field's kind (shared with C04-R4b)")
 	c02CarryOver(p, r, "R16")
+	singleApplicationRule(p, r, "R19")
 	r.Rule("R17", "the stages of the generic UpdateList are chained: the list every stage returns flows into the next stage or the result, and every stage after the delete stage works on the list the delete stage left (shared with C04-R15) — a stage fed with the list as it was before the delete brings deleted items back; a stage whose result is dropped has no effect")
 	engineStageResultsUsed(p, r, "R17")
 	c02HandlersUseExtractedFilters(p, r, "R18")
